@@ -125,5 +125,100 @@ def accepted_for(n: int) -> int:
     return s + t
 
 
-PROGRAMS = [rows_two_types, rows_three_types, maybe_undefined_two, unused_two, leak_in_branches, accepted_many_live,
+@guppy
+def maybe_undefined_siblings(a: bool, b: bool, c: bool) -> int:
+    if a:
+        if b:
+            zeta = 1
+        if c:
+            zeta = 2
+    else:
+        if c:
+            zeta = 3
+    return zeta
+
+
+@guppy
+def maybe_undefined_three(a: bool, b: bool) -> int:
+    if a:
+        u1 = 1
+    if b:
+        u2 = 2
+    if a and b:
+        u3 = 3
+    return u1 + u2 + u3
+
+
+@guppy
+def closure_captures(x: int, y: float, z: bool) -> float:
+    w = 7
+
+    def inner(k: int) -> float:
+        if z:
+            return y + x + k
+        return y - w
+
+    return inner(1)
+
+
+@guppy
+def closure_captures_gate_off(x: int, y: float, z: bool) -> float:
+    def inner(k: int) -> float:
+        if z:
+            return y + x + k
+        return y
+
+    return inner(1)
+
+
+@guppy.struct
+class Quad:
+    p: int
+    q: float
+    r: bool
+    s: int
+
+
+@guppy
+def struct_fields_live(v: Quad, c: bool) -> float:
+    i = 0
+    acc = 0.0
+    while i < v.s:
+        if v.r and c:
+            acc += v.q
+        else:
+            acc += v.p
+        i += 1
+    return acc
+
+
+@guppy
+def nested_loops_break(n: int, m: int) -> int:
+    a = 0
+    b = 1
+    c = 2
+    for i in range(n):
+        for j in range(m):
+            if i * j > c:
+                break
+            a += b
+        else_ = a
+        b += c
+        c += else_
+    return a + b + c
+
+
+@guppy
+def array_comp_captures(x: int, y: int) -> array[int, 4]:
+    return array(i * x + y for i in range(4))
+
+
+@guppy
+def generic_two(x: int, y: float) -> int:
+    return two_params(x, y) + two_params(y, x)
+
+
+GATE_OFF = {"closure_captures_gate_off"}
+PROGRAMS = [maybe_undefined_siblings, maybe_undefined_three, closure_captures, closure_captures_gate_off, struct_fields_live,
+            nested_loops_break, array_comp_captures, generic_two, rows_two_types, rows_three_types, maybe_undefined_two, unused_two, leak_in_branches, accepted_many_live,
             accepted_qubits, unsolved_two, use_after_move_two, accepted_for]
